@@ -6,6 +6,8 @@ CONSTANTS
   Entries <- MCEntries
   Random <- MCRandom
   Seedable <- MCSeedRand
+  Backends <- MCOneBackend
+  InitBackend = "core"
   Objs <- MCNoObjs
   ObjSeed <- MCObjSeed
   ObjEntries <- MCSeedRand
